@@ -40,7 +40,7 @@ func omitEmpty(data any, p tree.Path) any {
 		}
 		return v
 	case []any:
-		var c []any
+		c := make([]any, 0, len(v)) // an empty list stays an empty list
 		for _, e := range v {
 			if isEmpty(e) && mustOmit(p) {
 				continue
